@@ -958,7 +958,7 @@ class Executor:
             reason = 'unsupported'
         self.stats['instrs'] += st.ninstr
         if st.ninstr > self.stats['max_path_instrs']: self.stats['max_path_instrs'] = st.ninstr
-        if reason == 'done':
+        if reason in ('done', 'exit'):
             self.stats['completed'] += 1
             self.reach_all |= st.reached
             if len(self.samples) < 5:
